@@ -2,6 +2,8 @@
 package props
 
 import (
+	"golang.org/x/tools/go/ssa"
+	"strings"
 	"fmt"
 	"regexp"
 	"kverif/core"
@@ -87,16 +89,20 @@ func allocatableViewRules(p string) []Rule {
 	const sn = "(*state.StateNode)."
 	return []Rule{
 		core.Custom{ID: p + ".VIEWA1", Kind: "RET", Run: func(w *core.World, id string) []core.Result {
-			rs := core.RetLeavesGuarded(w, id, "RET", sn+"Allocatable", 0, `^\$0\.NodeClaim\.Status\.Allocatable$|^lo\.Assign\[`,
+			rs := core.RetLeavesGuarded(w, id, "RET", sn+"Allocatable", 0, `^\$0\.NodeClaim\.Status\.Allocatable$|^lo\.Assign\[|^state\.\w+\(\$0\.Node\.Status\.Allocatable, \$0\.NodeClaim\.Status\.Allocatable\)$`,
 				G(`+^\(\*state\.StateNode\)\.Initialized\(\$0\)$`, `+^\$0\.NodeClaim == nil$`), 1,
 				"the raw Node allocatable is returned only when initialized or without NodeClaim")
-			rs = append(rs, core.RetLeavesGuarded(w, id, "RET", sn+"Allocatable", 0, `^\$0\.Node\.Status\.Allocatable$|^lo\.Assign\[`,
+			rs = append(rs, core.RetLeavesGuarded(w, id, "RET", sn+"Allocatable", 0, `^\$0\.Node\.Status\.Allocatable$|^lo\.Assign\[|^state\.\w+\(\$0\.Node\.Status\.Allocatable, \$0\.NodeClaim\.Status\.Allocatable\)$`,
 				G(`+^\$0\.Node == nil$`), 1, "the NodeClaim's allocatable is used on its own only while there is no Node")...)
 			return rs
 		}},
-		POST{ID: p + ".VIEWA2", Fn: sn + "Allocatable", FromLit: `+^utils/resources\.IsZero\(lo\.Assign\[.*\]\(&local<\[1\]corev1\.ResourceList>\[:\]\)\[next\(range\(\$0\.NodeClaim\.Status\.Allocatable\)\)#1\]\)$`,
-			Must: []string{`^mapupdate lo\.Assign\[.*\]\(&local<\[1\]corev1\.ResourceList>\[:\]\)\[next\(range\(\$0\.NodeClaim\.Status\.Allocatable\)\)#1\] = next\(range\(\$0\.NodeClaim\.Status\.Allocatable\)\)#2$`},
-			Note: "zero quantities reported by an uninitialized node are overridden by the NodeClaim's"},
+		core.Custom{ID: p + ".VIEWA2", Kind: "POST", Run: func(w *core.World, id string) []core.Result {
+			return postInHelpers(w, sn+"Allocatable", func(fnName string) POST {
+				return POST{ID: id, Fn: fnName, FromLit: `+^utils/resources\.IsZero\(lo\.Assign\[.*\]\(&local<\[1\]corev1\.ResourceList>\[:\]\)\[next\(range\(\$0\.NodeClaim\.Status\.Allocatable\)\)#1\]\)$`,
+					Must: []string{`^mapupdate lo\.Assign\[.*\]\(&local<\[1\]corev1\.ResourceList>\[:\]\)\[next\(range\(\$0\.NodeClaim\.Status\.Allocatable\)\)#1\] = next\(range\(\$0\.NodeClaim\.Status\.Allocatable\)\)#2$`},
+					Note: "zero quantities reported by an uninitialized node are overridden by the NodeClaim's"}
+			})
+		}},
 	}
 }
 
@@ -157,4 +163,31 @@ func nodePodsRules(p string) []Rule {
 func syncedFreshRules(p string) []Rule {
 	return []Rule{NOREACH{ID: p + ".FRESH1", Fn: "(*prov.Provisioner).Reconcile", FromLit: `+^\(\*state\.Cluster\)\.Synced\(\$0\.cluster\)$`,
 		Sink: `^call \(\*prov\.Batcher\[.*\]\)\.Wait\(|^call time\.Sleep\(|^call iface:\(k8s\.io/utils/clock\.\w+\)\.(Sleep|After)\(`, Note: "no waiting after the Synced test"}}
+}
+
+// postInHelpers evaluates a POST row in fn and, when its starting literal is not found there, in the private helpers fn
+// calls (with their parameters rendered as the call's arguments): the loop the row talks about may have been extracted.
+func postInHelpers(w *core.World, fnName string, mk func(fnName string) POST) []core.Result {
+	fn := w.Fn(fnName)
+	if fn == nil {
+		return mk(fnName).Check(w)
+	}
+	var first, good []core.Result
+	w.WithHelpers(fn, func(f *ssa.Function, _ ssa.Instruction) {
+		if good != nil {
+			return
+		}
+		r := mk(core.FnName(f)).Check(w)
+		if first == nil {
+			first = r
+		}
+		vac := len(r) == 1 && r[0].Status != core.Discharged && strings.HasPrefix(r[0].Msg, "vacuous")
+		if !vac {
+			good = r
+		}
+	})
+	if good != nil {
+		return good
+	}
+	return first
 }
